@@ -1273,6 +1273,18 @@ func replay(p string) {
 		if kvField(ans[0], "spec") != e {
 			res.SpecFail(vh.SpecFailure{Section: "tagseval", Kind: "from-expr-wrong", Input: c, Impl: e, Spec: kvField(ans[0], "spec"), What: "the built tag condition disagrees with the reference meaning of the expression"})
 		}
+	case "held":
+		var w struct {
+			Case heldCase `json:"case"`
+		}
+		json.Unmarshal(rp.Input, &w)
+		sec := res.Section("held", "replay", "replay of one recorded pair of FROMs through a held cursor")
+		runHeldCase(w.Case, sec)
+	case "idgen":
+		var c idgenCase
+		json.Unmarshal(rp.Input, &c)
+		sec := res.Section("idgen", "replay", "replay of one recorded sequence of process lives")
+		runIdgenCase(c, sec)
 	case "many":
 		var w struct {
 			Case manyCase `json:"case"`
@@ -1294,6 +1306,11 @@ func guard(section string, f func()) {
 }
 
 func main() {
+	if len(os.Args) == 3 && os.Args[1] == "-idchild" {
+		n, _ := strconv.Atoi(os.Args[2])
+		idChildMain(n)
+		return
+	}
 	args = vh.ParseArgs()
 	res = vh.NewResult("C06", args)
 	if args.Replay != "" {
@@ -1307,5 +1324,7 @@ func main() {
 	guard("selection", func() { sectionSelection(rng.Fork("selection")) })
 	guard("race", func() { sectionRace(rng.Fork("race")) })
 	guard("many", func() { sectionMany(rng.Fork("many")) })
+	guard("held", func() { sectionHeld(rng.Fork("held")) })
+	guard("idgen", func() { sectionIdgen(rng.Fork("idgen")) })
 	res.Write(args.Out)
 }
